@@ -140,6 +140,7 @@ TABLE: List[Entry] = [
     ("R-TIGHTEN", None, "tighten-args", {"C03", "C04"}),
     ("R-TIGHTEN", None, None, {"C03"}),
     # ---- shaving: the loop's own progress is also a termination matter
+    ("R-SHAVE", None, "bound-argument-range", {"C01", "C02", "C10", "C16"}),  # an index 2 on the bound axis writes into the next shared domain
     ("R-SHAVE", None, "round-without-probe", {"C02", "C04", "C10"}),
     ("R-SHAVE", None, "cursor-may-move-back", {"C02", "C04", "C10"}),
     ("R-SHAVE", None, "no-advance-after-failed-probe", {"C02", "C04", "C10"}),
